@@ -10,6 +10,7 @@
 
 #include <boost/range/iterator_range.hpp>
 #include <unordered_map>
+#include <unordered_set>
 
 namespace crab {
 namespace analyzer {
@@ -38,6 +39,9 @@ private:
   using liveness_map_t = std::unordered_map<basic_block_label_t, binding_t>;
   
   liveness_map_t m_liveness_map;
+  // blocks that contain an unreachable statement: no execution
+  // reaches the end of the block.
+  std::unordered_set<basic_block_label_t> m_unreachable_blocks;
 public:
   liveness_analysis_operations(CFG cfg) : parent_type(cfg) {}
 
@@ -65,8 +69,13 @@ public:
       varset_domain_t kill, gen;
       for (auto &s : boost::make_iterator_range(b.rbegin(), b.rend())) {
 	if (s.is_unreachable()) {
+	  // The statements after s are never executed so that their
+	  // uses and definitions are irrelevant. The statements before
+	  // s are still executed.
 	  is_unreachable_block = true;
-	  break;
+	  kill = varset_domain_t::bottom();
+	  gen = varset_domain_t::bottom();
+	  continue;
 	} 
         auto const &live = s.get_live();
         for (auto d :
@@ -79,8 +88,9 @@ public:
           gen += u;
         }
       } // end for
-      if (!is_unreachable_block) {
-	m_liveness_map.insert(std::make_pair(b.label(), binding_t(kill, gen)));
+      m_liveness_map.insert(std::make_pair(b.label(), binding_t(kill, gen)));
+      if (is_unreachable_block) {
+	m_unreachable_blocks.insert(b.label());
       }
     } // end for
   }
@@ -89,10 +99,15 @@ public:
                                   varset_domain_t in) override {
     auto it = m_liveness_map.find(bb_id);
     if (it != m_liveness_map.end()) {
-      in -= it->second.first;
+      if (m_unreachable_blocks.count(bb_id) > 0) {
+	// no execution reaches the end of bb_id: only the variables
+	// used before the unreachable statement are live.
+	in = varset_domain_t::bottom();
+      } else {
+	in -= it->second.first;
+      }
       in += it->second.second;
     } else {
-      // bb_id is unreachable
       in = varset_domain_t::bottom(); // empty set (i.e., no live variables)
     } 
     return in;
